@@ -77,7 +77,7 @@ def run_property(pid, spec, tier="quick", repo=REPO, quiet=False, write_evidence
                 violations.append((r, f))
     floor_fail = []
     for r in results:
-        for (n, c, fl) in r.floor_failures():
+        for (n, c, fl) in r.floor_failures(reference=ctx.is_reference_tree()):
             floor_fail.append((r, n, c, fl))
 
     obligations = sum(r.obligations for r in results)
@@ -89,6 +89,11 @@ def run_property(pid, spec, tier="quick", repo=REPO, quiet=False, write_evidence
         say("  %-14s obligations=%-4d discharged=%-4d violations=%-3d floors=%s" % (
             r.rule, r.obligations, r.discharged, len(r.findings),
             ", ".join("%s=%d(>=%d)" % (n, c, f) for n, (c, f) in r.floors.items())))
+    if not ctx.is_reference_tree():
+        for r in results:
+            for (n_, c_, fl_) in r.floor_drift():
+                if (n_, c_, fl_) not in r.floor_failures(reference=False):
+                    say("  note: %s located %d '%s' (reference tree: %d); recorded, not an alarm on a changed tree" % (r.rule, c_, n_, fl_))
     for k, fs in known_hit.items():
         say("KNOWN-FINDING: property=%s %s [%s; %d site(s)]" % (pid, known_keys[k]["what_fails"], k, len(fs)))
     vdir = os.path.join(VERIF, "evidence", "violations")
